@@ -149,6 +149,24 @@ func init() {
 				}
 			}
 		}
+		// several roots with a hostile name at once (each would end up outside the target if it were created): whichever
+		// worker notices first, none of them is created
+		for _, mask := range []int{3, 5, 6, 7} {
+			doc := ""
+			for r := 0; r < 3; r++ {
+				if mask&(1<<r) != 0 {
+					doc += fmt.Sprintf("- r%d\n  - a\n    - ../../../../esc%d\n", r, r)
+				} else {
+					doc += fmt.Sprintf("- r%d\n  - k\n", r)
+				}
+			}
+			for wi, w := range []map[string]int{w2, w3} {
+				d := NewDrv("mkdir", doc)
+				name := fmt.Sprintf("c07/several-hostile/mask%d/w%d", mask, wi+2)
+				out = append(out, &Scenario{Name: name, Prop: "C07", Workers: w, Bound: k, Policies: []int{0, 1, 2},
+					New: func() Exec { return &c07Exec{DrvRun: d.New(), invalid: true} }})
+			}
+		}
 		// a wide node (more children than typical fan-out thresholds) with one hostile child at an early, a middle
 		// and the last position; one worker per stage
 		for _, pos := range []int{5, 20, 33} {
